@@ -10,6 +10,8 @@ type stats struct {
 	matchCount    uint64
 	transmitted   [100]bool
 	transmitCount int
+	// A matching line was dropped since the last line was transmitted.
+	dropped bool
 }
 
 // Return the total line count.
@@ -19,7 +21,13 @@ func (f *stats) totalLineCount() uint64 {
 
 // Calculate the percentage of log lines transmitted to the client.
 func (f *stats) transmittedPerc() int {
-	return int(percentOf(float64(f.matchCount), float64(f.transmitCount)))
+	perc := int(percentOf(float64(f.matchCount), float64(f.transmitCount)))
+	// The client has to learn about dropped lines with the next line it gets, also when
+	// the dropped lines already left the window of the last 100 lines.
+	if f.dropped && perc > 99 {
+		perc = 99
+	}
+	return perc
 }
 
 // Update bucket position. We only take into consideration the last 100
